@@ -32,10 +32,124 @@ def cancel_worlds(tier):
     )
 
 
+# ----------------------------------------------------------------------------- the guards themselves (single Task)
+LIFE_OPS = ["release", "schedule", "unschedule", "start", "run", "cancel"]
+
+
+@st.composite
+def lifecycle_cases(draw):
+    n = draw(st.integers(1, 12))
+    ops = [[draw(st.sampled_from(LIFE_OPS)), draw(st.integers(0, 3))] for _ in range(n)]
+    return {"runtime": draw(st.integers(0, 4)), "ops": ops}
+
+
+def exec_lifecycle(case):
+    """One Task driven through generated release/schedule/unschedule/start/run/cancel calls against the documented
+    guards: an allowed call moves the task as the reference automaton says, a forbidden one raises ValueError and changes
+    nothing; COMPLETED and CANCELLED are final and a task is cancellable only before it runs."""
+    from pbt import env  # noqa: F401
+    from pbt.runner import CaseResult, Violation
+    from utils import EventTime
+    from workload import ExecutionStrategies, ExecutionStrategy, Job, Placement, Resource, Resources, Task, TaskState, WorkProfile
+
+    US = EventTime.Unit.US
+    res = CaseResult()
+    strat = ExecutionStrategy(resources=Resources({Resource(name="CPU", _id="any"): 1}), batch_size=1, runtime=EventTime(case["runtime"], US))
+    job = Job(name="J", profile=WorkProfile(name="P", execution_strategies=ExecutionStrategies([strat])))
+    task = Task(name="T", task_graph="G", job=job, deadline=EventTime(1000, US), timestamp=0)
+    model = "VIRTUAL"
+    released = False
+    ran = False
+    now = 0
+    seen = set()
+
+    def bad(kind, detail):
+        res.violations.append(Violation(kind, f"{detail}; case={case}", f"c06.task_api.{kind}"))
+
+    for op, dt in case["ops"]:
+        now += dt
+        t = EventTime(now, US)
+        before = task.state.name
+        if before != model:
+            bad("state_differs_from_automaton", f"before {op}: task is {before}, automaton says {model}")
+            break
+        if op == "release":
+            allowed = model in ("VIRTUAL", "SCHEDULED")
+            expect = "RELEASED" if model == "VIRTUAL" else model
+            call = lambda: task.release(t)  # noqa: E731
+        elif op == "schedule":
+            allowed = model in ("VIRTUAL", "RELEASED", "SCHEDULED")
+            expect = "SCHEDULED"
+            pl = Placement.create_task_placement(task=task, placement_time=t, worker_pool_id="pool", execution_strategy=strat)
+            call = lambda: task.schedule(t, pl)  # noqa: E731
+        elif op == "unschedule":
+            allowed = model == "SCHEDULED"
+            expect = "RELEASED" if released else "VIRTUAL"
+            call = lambda: task.unschedule(t)  # noqa: E731
+        elif op == "start":
+            if model == "SCHEDULED" and not released:
+                continue  # starting a never-released task is outside the documented use (the Simulator never does it)
+            allowed = model == "SCHEDULED"
+            expect = "RUNNING"
+            call = lambda: task.start(t)  # noqa: E731
+        elif op == "run":
+            # step through the whole remaining time, then finish - what Worker.step + the Simulator do
+            if model != "RUNNING":
+                allowed, expect = False, model
+                call = lambda: task.finish(t)  # noqa: E731
+            else:
+                allowed, expect = True, "COMPLETED"
+
+                def call():
+                    rem = task.remaining_time
+                    task.step(t, rem if rem > EventTime.zero() else EventTime(1, US))
+                    task.finish(t + rem)
+        else:
+            allowed = model in ("VIRTUAL", "RELEASED", "SCHEDULED")
+            expect = "CANCELLED"
+            call = lambda: task.cancel(t)  # noqa: E731
+        seen.add((model, op))
+        try:
+            call()
+            raised = None
+        except ValueError as e:
+            raised = e
+        except Exception as e:  # any other exception type is not the documented refusal
+            bad("unexpected_exception", f"{op} from {model}: {type(e).__name__}: {e}")
+            break
+        after = task.state.name
+        if allowed:
+            if raised is not None:
+                bad("refused_allowed_call", f"{op} from {model} raised {raised}")
+                break
+            if after != expect:
+                bad("wrong_target_state", f"{op} from {model} (released={released}) led to {after}, expected {expect}")
+                break
+            model = after
+            if op == "release":
+                released = True
+            if op == "start":
+                ran = True
+            if op == "run":
+                now += case["runtime"]
+        else:
+            if raised is None:
+                kind = "cancel_after_running" if op == "cancel" and ran else "final_state_left" if model in ("COMPLETED", "CANCELLED") and after != model else "forbidden_call_accepted"
+                bad(kind, f"{op} from {model} was accepted and led to {after}")
+                break
+            if after != model:
+                bad("refusal_changed_state", f"{op} from {model} raised but left the task {after}")
+                break
+    res.nontrivial = len({m for m, _ in seen}) >= 3
+    res.classes = sorted({f"{m}:{o}" for m, o in seen})
+    return res
+
+
 CHECKS = [
     Check("greedy_sim", sim_execute([J.judge_c06], J.nontrivial_c06), strategy=cancel_worlds, budget={"quick": 2500, "thorough": 50000}),
     Check("planner_sim", sim_execute([J.judge_c06], J.nontrivial_c06, planner=True, max_steps=1500),
           strategy=lambda tier: specs.planner_worlds(max_jobs=4, flags=cancel_flags()), budget={"quick": 128, "thorough": 4000}),
     Check("scripted_sim", sim_execute([J.judge_c06], J.nontrivial_c06, max_steps=1500), strategy=lambda tier: specs.scripted_worlds(flags=cancel_flags()),
           budget={"quick": 500, "thorough": 30000}),
+    Check("task_guards", exec_lifecycle, strategy=lambda tier: lifecycle_cases(), budget={"quick": 4000, "thorough": 200000}, case_timeout=60),
 ]
